@@ -89,12 +89,19 @@ Lemma load_shell_env_effect fs c e :
   c_defaults c' = c_defaults c /\ c_overrides c' = c_overrides c.
 Proof.
   unfold step, step_with, merged, remerge.
-  destruct (merge c) as [d|er]; cbn.
+  destruct (merge (set_env c (Node []))) as [d|er]; cbn.
   - destruct (load (Node d) (c_env_prefix c) e) as [d'|er']; cbn.
-    + destruct (merge (set_env (set_cache c d) (Node d'))); cbn; repeat split; reflexivity.
+    + destruct (merge (set_env (set_cache (set_env c (Node [])) d) (Node d'))); cbn; repeat split; reflexivity.
     + repeat split; reflexivity.
   - repeat split; reflexivity.
 Qed.
+
+(** the reload of the environment level forgets the previous one altogether
+    (since /repo 150639c the crawl reads a merge without the old [_env]): the
+    whole step is independent of the environment level it finds *)
+Lemma env_reload_forgets_old_env fs c e old :
+  step fs (set_env c old) (LoadShellEnv e) = step fs c (LoadShellEnv e).
+Proof. destruct c. reflexivity. Qed.
 
 (** * Witnesses and sweeps *)
 Definition tk (i : nat) (n : string) := mkTask i n [] false.
@@ -151,8 +158,11 @@ Lemma refuted_default_task :
             (session c (mkInit (Node []) (Node []) None None false) [] [("a", leaf_call 1)] None true [[]]) = true.
 Proof. eexists. split; [vm_compute; reflexivity|]. split; vm_compute; reflexivity. Qed.
 
-(** F-C19b: the environment level computed for the previous task keeps one of
-    its collection's settings alive for the next task *)
+(** The former witness of F-C19b (repaired in /repo by 150639c): with
+    INVOKE_K_A set, `sub.first second`, only [sub] configuring [k.a].  The
+    environment level computed for [first] used to survive the reload and
+    re-create [k.a = 5] for [second]; now [second] sees nothing of it and the
+    session meets the specification. *)
 Definition ns_script_e : item :=
   ISub None true (Node [])
        [ISub (Some "sub") true (Node [("k", Node [("a", Leaf (VInt 1))])])
@@ -160,21 +170,19 @@ Definition ns_script_e : item :=
         ITask (tk 2 "second") None [] None]
        None false.
 
-Lemma refuted_stale_env :
+Lemma stale_env_gone :
   exists c, build ns_script_e = Ok c /\
     let i := mkInit (Node []) (Node []) None None false in
     let reqs := [("sub.first", leaf_call 1); ("second", leaf_call 2)] in
     spec_ok c (Node []) (Node []) (fun _ => []) [[("INVOKE_K_A", "5")]]
-            (session c i [] reqs None true [[("INVOKE_K_A", "5")]]) = false /\
+            (session c i [] reqs None true [[("INVOKE_K_A", "5")]]) = true /\
     (exists v1 v2, session c i [] reqs None true [[("INVOKE_K_A", "5")]]
                    = Ok ([(1, v1, [], v1); (2, v2, [], v2)], None) /\
-                   leaf_at ["k"; "a"] (Node v2) = Some (VInt 5)) /\
-    (* without the variable the second task sees nothing of it *)
-    spec_ok c (Node []) (Node []) (fun _ => []) [[]] (session c i [] reqs None true [[]]) = true.
+                   leaf_at ["k"; "a"] (Node v1) = Some (VInt 5) /\
+                   leaf_at ["k"; "a"] (Node v2) = None).
 Proof.
   eexists. split; [vm_compute; reflexivity|]. cbv zeta. split; [vm_compute; reflexivity|].
-  split; [|vm_compute; reflexivity].
-  eexists. eexists. split; vm_compute; reflexivity.
+  eexists. eexists. split; [vm_compute; reflexivity|]. split; vm_compute; reflexivity.
 Qed.
 
 (** sweep: every sequence of 1-2 direct requests over four names, eight of
@@ -193,7 +201,8 @@ Definition edits : list (list op) :=
 
 Definition env_schedules : list (list (list (string * string))) :=
   [ [[]]; [[("INVOKE_K_X", "7")]]; [[]; [("INVOKE_K_X", "7"); ("INVOKE_K_D", "3")]];
-    [[("INVOKE_K_X", "7")]; []; [("INVOKE_K_TOP", "2")]] ].
+    [[("INVOKE_K_X", "7")]; []; [("INVOKE_K_TOP", "2")]];
+    [[("INVOKE_K_A", "5")]] ].
 
 Definition req_seqs : list (list (string * scall)) :=
   map (fun a => [a]) names5 ++
@@ -212,7 +221,7 @@ Definition sweep : bool :=
 Lemma view_bounded : sweep = true.
 Proof. vm_compute. reflexivity. Qed.
 
-Lemma sweep_size : List.length req_seqs = 28 /\ List.length edits = 7 /\ List.length env_schedules = 4.
+Lemma sweep_size : List.length req_seqs = 28 /\ List.length edits = 7 /\ List.length env_schedules = 5.
 Proof. vm_compute. auto. Qed.
 
 (** * the collection level a directly requested call gets *)
